@@ -45,4 +45,4 @@ HARNESSES.append(
          assumptions=["dh_params: pstm_read_asn is a contract stub yielding arbitrary integers (privateValueLength: any value of <= 2 digits, split into the ranges 0..40 and >= 16300); pstm_unsigned_bin_size / pstm_init_size / pstm_clear are stubs"],
          unwind=8,
          cases=[dict(name="small", defs={"VF_RANGE": 0}, unwindset={"psPkcs3ParseDhParamBin:/while\\(pstm_cmp_d/": 45}),
-                dict(name="large", defs={"VF_RANGE": 1}, unwindset={"psPkcs3ParseDhParamBin:/while\\(pstm_cmp_d/": 16390}, cap_s=1200, checks=[])]))
+                dict(name="large", tier="thorough", defs={"VF_RANGE": 1}, unwindset={"psPkcs3ParseDhParamBin:/while\\(pstm_cmp_d/": 16390}, cap_s=5400, mem_gb=24, checks=[])]))
